@@ -924,4 +924,3 @@ func init() {
 		},
 	})
 }
-
